@@ -255,6 +255,41 @@ def execute(tree, site_index, apply_gate=None, init=None):
     return visits
 
 
+def subcircuit_block_states(tree, site_index, apply_gate, init):
+    """The state every `subcircuit` BLOCK produces when it is run once, whether or not the
+    program ever visits it (a block inside a zero-count loop is still a subcircuit of the
+    program, listed in flat order, with its own distribution).  Returns {flat index: state}."""
+    out = {}
+
+    def run(node, state):
+        tag = node[0]
+        if tag == "g":
+            return apply_gate(state, node[1], node[2])
+        if tag == "loop":
+            for _ in range(node[1]):
+                state = run(node[2], state)
+            return state
+        for k in node[2] if tag == "sub" else node[1]:
+            state = run(k, state)
+        return state
+
+    def rec(node):
+        tag = node[0]
+        if tag == "sub":
+            st = init()
+            for k in node[2]:
+                st = run(k, st)
+            out[site_index[id(node)]] = st
+        elif tag == "loop":
+            rec(node[2])
+        elif tag != "g":
+            for k in node[1]:
+                rec(k)
+
+    rec(tree)
+    return out
+
+
 # ------------------------------------------------------------------------------ schedule (C19)
 
 
